@@ -19,5 +19,6 @@ PROP = Property(
     assumptions=["option handling, server list and text forms are hand-modelled (coq/Config/Options.v, Csv.v, Sysconfig.v); the tie to the C code is the correspondence run",
                  "ARES_OPT_EVENT_THREAD, socket callbacks other than sock_state_cb, and ARES_OPT_TIMEOUT together with ARES_OPT_TIMEOUTMS are not generated",
                  "memory allocation is assumed to succeed"],
+    generated_fns=["src/lib/ares_update_servers.c:ares_sconfig_get_port", "src/lib/ares_update_servers.c:ares_server_use_uri"],
     rule="channels built from generated options / setters / system files; save->init, dup, csv round trip, reinit; non-trivial = every class except trivial-*; distinct by case text",
 )
